@@ -807,6 +807,17 @@ static bool parse_cfg(const std::string & line, Config & c)
     Hist h;
     h.cfg.cat = tok[ih + 1];
     h.cfg.name = tok[ih + 2];
+    {
+      // "name:level:mode" for a double-beta history configuration
+      size_t c1 = h.cfg.name.find(':');
+      if (c1 != std::string::npos) {
+        std::string rest = h.cfg.name.substr(c1 + 1);
+        h.cfg.name = h.cfg.name.substr(0, c1);
+        size_t c2 = rest.find(':');
+        h.cfg.level = atoi(rest.substr(0, c2).c_str());
+        if (c2 != std::string::npos) h.cfg.mode = atoi(rest.substr(c2 + 1).c_str());
+      }
+    }
     h.forced = parse_forced(ih + 3 < tok.size() ? tok[ih + 3] : "-");
     c.hist = tok[ih + 1] + " " + tok[ih + 2] + " " + (ih + 3 < tok.size() ? tok[ih + 3] : "-");
     if (ih + 5 < tok.size() && tok[ih + 4] == "START") {
